@@ -253,4 +253,34 @@ Definition pending_of (s : srv) (k : N) : option N :=
 Definition addr_of (s : srv) (k : N) : option N :=
   match conns s k with Some cn => Some (c_addr cn) | None => None end.
 
+(* the challenge a handshake message on connection k is verified against, if the handler gets as far as
+   VerifyResponse (phase 2: not gated, not a first connection, client known and not expired, a response present,
+   a challenge pending); that challenge is cleared by this very step whether or not the response is correct *)
+Definition verif_target (s : srv) (k : N) (m : hs) : option N :=
+  match conns s k with
+  | None => None
+  | Some cn =>
+    if black s (c_addr cn) || banned s (c_addr cn) then None
+    else if (h_cid m =? 0) && (rl_deny s || h_new m) then None
+    else match clients s (h_cid m) with
+         | None => None
+         | Some cl => if expired cl then None else
+                      match h_resp m with
+                      | None => None
+                      | Some _ => match c_cc cn with Some c => pending c | None => None end
+                      end
+         end
+  end.
+
+(* all verification targets along a history *)
+Fixpoint targets (v : variant) (s : srv) (es : list ev) : list N :=
+  match es with
+  | [] => []
+  | e :: es' =>
+    (match e with
+     | EMsg k (Some m) => match verif_target s k m with Some ch => [ch] | None => [] end
+     | _ => []
+     end) ++ targets v (fst (step v s e)) es'
+  end.
+
 End WithHmac.
